@@ -457,9 +457,34 @@ func runHarness(prog *ssa.Program, pkg *ssa.Package, overlay map[string][]byte, 
 	sort.Strings(rep.Calls)
 	rep.Effects = m.effects
 	if rep.ToolError != "" {
+		// the code under test left what the encoding can execute. Where the harness has a native replay entry (a fixed
+		// battery asking the property's question of the compiled code) that entry decides: a failure there is a
+		// reproduced violation; if it passes, the run stays inconclusive (never "held").
+		if h.ReplayEntry != "" && !h.NoReplay {
+			if outs, err := nativeRun(h, overlay, [][]string{{}}); err == nil && len(outs) == 1 && (len(outs[0].Failed) > 0 || outs[0].Panic != "") {
+				why := outs[0].Panic
+				if len(outs[0].Failed) > 0 {
+					why = outs[0].Failed[0]
+				}
+				rep.Failures = append(rep.Failures, OblResult{What: "not encodable (" + firstLine(rep.ToolError) + "): decided by the native replay entry", Verdict: "sat", Replay: "reproduced (the native replay entry fails: " + why + ")"})
+				rep.Sat++
+				rep.Obligations++
+				rep.ToolError = ""
+			}
+		}
 		return
 	}
 	discharge(m, h, rep, overlay)
+}
+
+func firstLine(s string) string {
+	if i := strings.Index(s, " | "); i > 0 {
+		s = s[:i]
+	}
+	if len(s) > 160 {
+		s = s[:160]
+	}
+	return s
 }
 
 func shortStack() string {
